@@ -6,7 +6,7 @@ import CTV.Lemmas.Lockset
 Model: `CTV.Model.Races` (`safeSubmissionState`, `groupRace`, `GetSCTs`, group construction, compatibility filter),
 one `Op` per atomic action, so "for every schedule, latency pattern and failure pattern" is "for every `List Op`"
 (`exec` skips actions that are not enabled, hence every list is a schedule and every reachable state is `after r ops`).
-Thresholds, group tables, the temporal window predicate and the lock table are the regenerated `Gen.Policy`.
+Thresholds, group tables and the lock table are the regenerated `Gen.Policy`; the temporal window predicate is `Gen.temporallyCompatible` (`Gen.Temporal`, shared with C18).
 
 `WF r`: the group names of one call are distinct (they are map keys) and each session lists members of its group.
 -/
@@ -168,13 +168,17 @@ theorem setMinInclusions_ok (i n : Int) : (Gen.Policy.setMinInclusions i n).isSo
   unfold Gen.Policy.setMinInclusions
   by_cases h1 : i < 0 <;> by_cases h2 : i > n <;> simp [h1, h2] <;> omega
 
-/-- the temporal window predicate of `TemporallyCompatible`: start inclusive, end exclusive -/
-theorem temporal_window (t a b : Int) : Gen.Policy.temporallyCompatible t a b = true ↔ (a ≤ t ∧ t < b) := by
-  unfold Gen.Policy.temporallyCompatible
-  simp only [Bool.and_eq_true, Bool.or_eq_true, decide_eq_true_eq]
-  omega
+/-- the temporal window predicate, i.e. the per-log verdict of `TemporallyCompatible`'s loop body (regenerated by
+`loopVerdictKernel`, whatever the body's shape; `Gen.temporallyCompatibleKeeps_eq_spec`): a log without interval is kept,
+otherwise start inclusive, end exclusive -/
+theorem temporal_window (t a b : Int) :
+    Gen.temporallyCompatible (some (a, b)) t = true ↔ (a ≤ t ∧ t < b) :=
+  temporallyCompatible_iff (some (a, b)) t
 
-example : Gen.Policy.temporallyCompatible 10 10 11 = true ∧ Gen.Policy.temporallyCompatible 11 10 11 = false := by decide
+theorem temporal_no_interval (t : Int) : Gen.temporallyCompatible none t = true :=
+  (temporallyCompatible_iff none t).mpr trivial
+
+example : Gen.temporallyCompatible (some (10, 11)) 10 = true ∧ Gen.temporallyCompatible (some (10, 11)) 11 = false := by decide
 
 /-- the Chrome policy's groups: Google-operated ≥ 1, Non-Google-operated ≥ 1, All-logs ≥ total by lifetime -/
 theorem chrome_groups (m : Int) (ls : List LogInfo) :
